@@ -124,8 +124,16 @@ func (s *sbSkel) stmts(list []ast.Stmt, indent int) {
 		if len(x.Rhs) == 1 {
 			// field assignments of the command's standard streams
 			if len(x.Lhs) == 1 {
-				l, r := exprText(x.Lhs[0]), exprText(x.Rhs[0])
-				if strings.HasPrefix(l, "cmd.Std") && strings.HasPrefix(r, "os.Std") {
+				r := exprText(x.Rhs[0])
+				stdField := false
+				if sel, isSel := x.Lhs[0].(*ast.SelectorExpr); isSel {
+					if id, isID := sel.X.(*ast.Ident); isID {
+						if t := s.p.TypesInfo.TypeOf(id); t != nil && t.String() == "*os/exec.Cmd" {
+							stdField = sel.Sel.Name == "Stdin" || sel.Sel.Name == "Stdout" || sel.Sel.Name == "Stderr"
+						}
+					}
+				}
+				if stdField && strings.HasPrefix(r, "os.Std") {
 					s.line(indent, "-- %s  (no step)", srcText(s.p, x))
 					s.stmts(rest, indent)
 					return
